@@ -270,8 +270,45 @@ def clog(log):
 
 
 def ccase(case, log):
+    """typed form (used for displaying the model's log of a failing case)"""
     l0, l1, nu, goals = case
     return "check_run %s %s %d [%s] %s" % (cclauses(l0), cclauses(l1), nu, "; ".join(cgoal(g) for g in goals), clog(log))
+
+
+GOALCODE = {"gen": 0, "once": 1, "rgen": 2, "assertz": 3, "asserta": 4, "retract1": 5, "retractall": 6, "listc": 7, "listg": 7}
+
+
+def enc_tokens(toks):
+    out = []
+    for v in toks:
+        if v < 90:
+            out.append(chr(35 + v))
+        else:
+            assert v < 8100
+            out.append("}" + chr(35 + v // 90) + chr(35 + v % 90))
+    return "".join(out)
+
+
+def scase(case, log):
+    """compact form evaluated by check_s (see the end of coq/C09/Model.v)"""
+    l0, l1, nu, goals = case
+    ek = lambda k: 0 if k is None else k + 1
+    t = [nu, len(l0)]
+    for (u, k) in l0: t += [u, ek(k)]
+    t.append(len(l1))
+    for (u, k) in l1: t += [u, ek(k)]
+    t.append(len(goals))
+    for (kind, p, q) in goals: t += [GOALCODE[kind], p, ek(q)]
+    for e in log:
+        t.append(e[0])
+        o = e[1]
+        if o[0] == "v":
+            t += [0] if o[1] is None else [1, o[1]]
+        elif o[0] == "n":
+            t.append(2)
+        else:
+            t += [3, len(o[1])] + list(o[1])
+    return 'check_s "%s"' % enc_tokens(t)
 
 
 def case_text(case):
@@ -380,8 +417,8 @@ def run(ctx):
             outs[n] = o
     bools = []
     for case, (st, lg) in zip(cases, outs):
-        bools.append(ccase(case, lg if (lg is not None and st == "ok") else []))
-    bad, errs = core.coq_eval_bools(ctx.prop, IMPORTS, bools, chunk=250)
+        bools.append(scase(case, lg if (lg is not None and st == "ok") else []))
+    bad, errs = core.coq_eval_bools(ctx.prop, IMPORTS, bools, chunk=300)
     tie_breaks = [{"kind": "coq-eval", "what": "model evaluation shard failed", "detail": t} for _, t in errs]
     bad = set(bad)
     for n, (st, lg) in enumerate(outs):
